@@ -297,11 +297,13 @@ pub fn run(rec: &mut Recorder, w: &mut World, tier: &str, seed: u64) {
     {
         let rb = ks.iter().find(|k| k.name == "rbac").unwrap().clone();
         let m = model_of(&rb, E_ALLOW, false, "", false);
-        for len in 7..=13usize {
-            for shortcut in [false, true] {
+        for len in 7..=17usize {
+            // 0: plain chain; 1: a role reached along two paths; 2: a link back to a role already visited; 3: both
+            for shortcut in 0..4usize {
                 let mut lines: Vec<Vec<String>> = vec![sv(&["p", "p", &format!("u{}", len), "data1", "read"]), sv(&["p", "p", "u3", "data2", "read"])];
                 for i in 0..len { lines.push(sv(&["g", "g", &format!("u{}", i), &format!("u{}", i + 1)])); }
-                if shortcut { lines.push(sv(&["g", "g", "u1", "u4"])); }
+                if shortcut & 1 == 1 { lines.push(sv(&["g", "g", "u1", "u4"])); }
+                if shortcut & 2 == 2 { lines.push(sv(&["g", "g", "u2", "u0"])); }
                 rec.begin();
                 if new_enforcer(rec, w, &m, "memory", &lines, "", false) != "ok" { rec.count("new:failed"); continue; }
                 let mut reqs: Vec<Vec<String>> = vec![];
